@@ -35,50 +35,73 @@ Definition getConfig (v : val) : option config :=
   | _ => None
   end.
 
-(* oracle data of one do_segmetrics call: [q2a; per segment [kde index or None; biweight
-   location of the deviations or None; index matrix; noise matrix]] (empty matrices where the code did not draw any) *)
-Definition getSegOracle (q2a : Q) (v : val) : option oracles :=
+(* np.sqrt on the points the harness supplies: [(x, sqrt x)] *)
+Fixpoint lookupQ (tab : list (Q * Q)) (x : Q) : Q :=
+  match tab with
+  | [] => 0%Q
+  | p :: t => if Qeq_bool (fst p) x then snd p else lookupQ t x
+  end.
+Definition getPairQ (v : val) : option (Q * Q) :=
   match v with
-  | VL [kd; bl; ix; nz] =>
-      match getOpt getNat kd, getOpt getQ bl, getList (getList getNat) ix, getList (getList getQ) nz with
-      | Some kd, Some bl, Some ix, Some nz =>
+  | VL [a; b] => match getQ a, getQ b with Some a, Some b => Some (a, b) | _, _ => None end
+  | _ => None
+  end.
+
+(* the supplied matrices answer only the request they were drawn for: seed = the generated
+   constant, the shape asked for, indices in [0, k) (the oracle contract) *)
+Definition idx_shape_ok (m : list (list nat)) (k rows cols : nat) : bool :=
+  Nat.eqb (length m) rows &&
+  forallb (fun r => Nat.eqb (length r) cols && forallb (fun i => Nat.ltb i k) r) m.
+Definition z_shape_ok (m : list (list Q)) (rows cols : nat) : bool :=
+  Nat.eqb (length m) rows && forallb (fun r => Nat.eqb (length r) cols) m.
+
+(* oracle data of one do_segmetrics call: [q2a; sqrt table; per segment [kde index or None; biweight
+   location of the deviations or None; index matrix; normal draws; k ** (-1/4)]] (empty matrices where
+   the code did not draw any) *)
+Definition getSegOracle (q2a : Q) (sq : list (Q * Q)) (v : val) : option oracles :=
+  match v with
+  | VL [kd; bl; ix; nz; bw] =>
+      match getOpt getNat kd, getOpt getQ bl, getList (getList getNat) ix, getList (getList getQ) nz, getQ bw with
+      | Some kd, Some bl, Some ix, Some nz, Some bw =>
           (* the Student-t tail is left symbolic: the entry returns t^2, the harness applies
              scipy's tail to it *)
           Some (mkOracles (match kd with Some k => k | None => O end)
-                          (match bl with Some b => b | None => 0 end) (fun t2 _ => t2) q2a ix nz)
-      | _, _, _, _ => None
+                          (match bl with Some b => b | None => 0 end) (fun t2 _ => t2) q2a
+                          (fun s k rows cols =>
+                             if (s =? Gen.SegmetricsDefaults.ci_seed) && idx_shape_ok ix k rows cols then ix else [])
+                          (fun s k rows cols =>
+                             if (s =? Gen.SegmetricsDefaults.ci_seed) && z_shape_ok nz rows cols then nz else [])
+                          (fun _ => bw) (lookupQ sq))
+      | _, _, _, _, _ => None
       end
   | _ => None
   end.
 
 Definition getOdata (v : val) : option (list oracles) :=
   match v with
-  | VL [q; per] =>
-      match getQ q with
-      | Some q => getList (getSegOracle q) per
-      | None => None
+  | VL [q; sq; per] =>
+      match getQ q, getList getPairQ sq with
+      | Some q, Some sq => getList (getSegOracle q sq) per
+      | _, _ => None
       end
   | _ => None
   end.
 
-Definition dummy_oracles : oracles := mkOracles O 0 (fun t2 _ => t2) 0 [] [].
+Definition dummy_oracles : oracles :=
+  mkOracles O 0 (fun t2 _ => t2) 0 (fun _ _ _ _ => []) (fun _ _ _ _ => []) (fun _ => 0%Q) (fun _ => 0%Q).
 
 Definition vRow (r : list (string * option Q)) : val :=
   VL (map (fun p => VL [VS (fst p); vOptQ (snd p)]) r).
 
-(* shape of the supplied bootstrap matrix against the model's own k and bootstrap count,
-   and the oracle contract "indices in [0, k)" *)
+Definition is_nil {A} (l : list A) : bool := match l with [] => true | _ => false end.
+
+(* the supplied bootstrap matrices have the shape the MODEL asks for (its own k and its own
+   bootstrap count n_boot): otherwise the request above was answered with the empty matrix *)
 Definition ci_shape_ok (O : oracles) (cfg : config) (k : nat) : bool :=
   if negb (has "ci" (c_ivl cfg)) || (Z.of_nat k <? Gen.SegmetricsDefaults.ci_min_k) then true
   else
-    let nb := n_boot (c_boot cfg) (o_q2a O) in
-    let m := o_idx O in
-    (Z.of_nat (length m) =? nb) &&
-    forallb (fun r => Nat.eqb (length r) k && forallb (fun i => Nat.ltb i k) r) m &&
-    (if c_smoothed cfg
-     then let nz := o_noise O in
-          (Z.of_nat (length nz) =? nb) && forallb (fun r => Nat.eqb (length r) k) nz
-     else true).
+    negb (is_nil (ci_resamples O (c_boot cfg) k)) &&
+    (if c_smoothed cfg then negb (is_nil (ci_normals O (c_boot cfg) k)) else true).
 
 (* per segment: [number of bins; their index labels; the statistics row] *)
 Definition e_c17_segmetrics (v : val) : val :=
@@ -157,6 +180,54 @@ Definition e_c17_bintest (v : val) : val :=
           else VErr "p-value oracle shape"
       | _, _, _, _, _ => bad_input
       end
+  | _ => bad_input
+  end.
+
+(* the table do_bintest returns: [column names; rows [index label; chromosome; start; end; gene;
+   log2 (= residual); weight; depth or None; probes; p_bintest]] *)
+Definition vHitRow (h : hit_row) : val :=
+  let b := h_bin h in
+  VL [VZ (Z.of_nat (h_idx h)); VS (b_chr b); VZ (b_start b); VZ (b_end b); VS (b_gene b); VQ (Qred (b_log2 b));
+      VQ (Qred (b_weight b)); vOptQ (b_depth b); VZ (h_probes h); VQ (Qred (h_p h))].
+Definition e_c17_bintest_table (v : val) : val :=
+  match v with
+  | VL [b; s; a; t; p; hd] =>
+      match getList getBin b, getSegs s, getQ a, getB t, getList (getOpt getQ) p, getB hd with
+      | Some bins, Some segs, Some a, Some t, Some ps, Some hd =>
+          let cs := candidates bins segs t in
+          if Nat.eqb (length ps) (length cs)
+          then VL [VL (map VS (bintest_columns hd)); VL (map vHitRow (bintest_table_with ps cs a))]
+          else VErr "p-value oracle shape"
+      | _, _, _, _, _, _ => bad_input
+      end
+  | _ => bad_input
+  end.
+
+(* one call of confidence_interval_bootstrap: [values; weights; alpha; bootstraps; smoothed;
+   [q2a; sqrt table; [[None; None; index matrix; normal draws; bandwidth]]]] ->
+   [number of resamples; [lo; hi] or None] *)
+Definition e_c17_ci (v : val) : val :=
+  match v with
+  | VL [vs; ws; a; b; sm; o] =>
+      match getList getQ vs, getList getQ ws, getQ a, getZ b, getB sm, getOdata o with
+      | Some vals, Some wts, Some a, Some b, Some sm, Some [orc] =>
+          let cfg := mkConfig [] [] ["ci"%string] a b sm false in
+          if ci_shape_ok orc cfg (length vals)
+          then VL [VZ (n_boot b (o_q2a orc));
+                   match ci_func orc a b sm vals wts with
+                   | Some (lo, hi) => VL [VQ (Qred lo); VQ (Qred hi)]
+                   | None => VNone
+                   end]
+          else VErr "bootstrap oracle shape"
+      | _, _, _, _, _, _ => bad_input
+      end
+  | _ => bad_input
+  end.
+
+(* the number of resamples for (bootstraps, the float 2/alpha) *)
+Definition e_c17_nboot (v : val) : val :=
+  match v with
+  | VL [b; q] => match getZ b, getQ q with Some b, Some q => VZ (n_boot b q) | _, _ => bad_input end
   | _ => bad_input
   end.
 
